@@ -39,6 +39,9 @@ FORMS = ["<% ctx().zz %>", "<% ctx(zz) %>", "<% ctx('zz') %>", '<% ctx("zz") %>'
 BROKEN = ["<% 1 +/ 2 %>", "{{ 1 +/ 2 }}", "<% ctx().a. %>", "{{ ctx().a. }}"]
 
 
+OWN_THOROUGH = True
+
+
 def sites(d, path=()):
     if isinstance(d, dict):
         for k, v in d.items():
